@@ -142,6 +142,87 @@ func checkC13(w *World, c *Check, tier string) {
 
 func checkAppendGuard(w *World, c *Check, pr *prover, name string, app *ssa.Function) {
 	checkAppendGuardOn(w, c, pr, name, app, app.Params[0], 0)
+	checkAppendNoShortcut(w, c, pr, name, app)
+}
+
+// checkAppendNoShortcut: apart from "there is nothing to append" (no arguments, nil receiver) Append decides item by item,
+// inside its loop over the arguments (or by handing all of them on to another Append). A return taken before that loop
+// on the word of some other predicate over the whole batch ("they all match something already here") drops items that
+// the membership test would have added.
+func checkAppendNoShortcut(w *World, c *Check, pr *prover, name string, app *ssa.Function) {
+	if len(app.Params) < 2 {
+		return
+	}
+	items := app.Params[len(app.Params)-1]
+	lh := loopHeaders(app)
+	// the loop over the arguments: a loop that reads elements of the variadic parameter
+	var argLoop *ssa.BasicBlock
+	for _, b := range app.Blocks {
+		for _, in := range b.Instrs {
+			if ia, ok := in.(*ssa.IndexAddr); ok && unwrap(ia.X) == ssa.Value(items) {
+				for h := range lh[b] {
+					if argLoop == nil || len(loopBody(lh, h)) > len(loopBody(lh, argLoop)) {
+						argLoop = h
+					}
+				}
+			}
+		}
+	}
+	if argLoop == nil {
+		return // delegates the whole batch
+	}
+	k := 0
+	for _, rb := range returnBlocks(app) {
+		if rb == argLoop || argLoop.Dominates(rb) {
+			continue
+		}
+		for _, g := range rawGuards(rb) {
+			trivial := false
+			switch x := g.cond.(type) {
+			case *ssa.BinOp:
+				subj := x.X
+				if _, isC := x.X.(*ssa.Const); isC {
+					subj = x.Y
+				}
+				if inner, isLen := lenOperand(subj); isLen {
+					subj = inner
+				}
+				s0 := unwrap(subj)
+				if s0 == ssa.Value(items) || s0 == ssa.Value(app.Params[0]) {
+					trivial = true
+				}
+			}
+			// a predicate over the batch that is itself the membership test applied to every item (ItemsMatch: every item
+			// is Contains-ed) decides nothing new
+			if call, isCall := g.cond.(*ssa.Call); isCall && !trivial {
+				if cal := call.Common().StaticCallee(); cal != nil && w.InPkg(cal) && cal.Blocks != nil {
+					viaContains, other := false, false
+					for _, cc := range callsIn(cal) {
+						if calleeNamed(cc, "Contains") && len(loopHeaders(cal)[cc.Block()]) > 0 {
+							viaContains = true
+						} else if in := cc.Common().StaticCallee(); in != nil && (w.InPkg(in) || strings.HasPrefix(extName(in), "strings.") || strings.HasPrefix(extName(in), "bytes.")) {
+							switch in.Name() {
+							case "IsNil", "GetLink", "GetID", "len":
+							default:
+								other = true
+							}
+						}
+					}
+					if viaContains && !other {
+						trivial = true
+					}
+				}
+			}
+			if trivial {
+				continue
+			}
+			k++
+			c.bad("C13.guard", fmt.Sprintf("%s.Append:shortcut#%d", name, k), w.InstrPos(rb.Instrs[len(rb.Instrs)-1]), fmt.Sprintf("%s.Append returns before its loop over the arguments under the condition %s: what decides is not the membership test applied item by item, so an item that is not contained can be dropped without being appended", name, shortVal(g.cond)))
+		}
+	}
+	if k == 0 {
+		c.ok("C13.guard", name+".Append:no-shortcut", w.FuncPos(app), "no return before the loop over the arguments except for an empty batch / nil receiver")
+	}
 }
 
 // checkAppendGuardOn: the rule for function app with the list (pointer) held in parameter recv. When app itself does not
@@ -947,6 +1028,53 @@ func checkC14Relation(w *World, c *Check, eq *ssa.Function, clos []*ssa.Function
 				}
 			}
 		}
+		// the lists that are sorted: arguments of the sort calls, and results of helpers that sort what they return
+		sortedLists := map[ssa.Value]bool{}
+		sortingHelper := map[*ssa.Function]bool{}
+		for _, qf := range qfns {
+			for _, call := range callsIn(qf) {
+				cal := call.Common().StaticCallee()
+				if cal == nil || cal.Object() == nil || cal.Object().Pkg() == nil || len(call.Common().Args) == 0 {
+					continue
+				}
+				full := cal.Object().Pkg().Path() + "." + cal.Name()
+				if full == "sort.Strings" || full == "slices.Sort" || full == "sort.Slice" || full == "sort.Sort" || full == "slices.SortFunc" {
+					a := resolveLocal(stripConv(call.Common().Args[0]))
+					sortedLists[a] = true
+					// returned by its function: a sorting helper
+					for _, rb := range returnBlocks(qf) {
+						ret := rb.Instrs[len(rb.Instrs)-1].(*ssa.Return)
+						for _, r := range ret.Results {
+							if resolveLocal(stripConv(r)) == a {
+								sortingHelper[qf] = true
+							}
+						}
+					}
+				}
+			}
+		}
+		isSorted := func(list ssa.Value) bool {
+			l := resolveLocal(stripConv(list))
+			if sortedLists[l] {
+				return true
+			}
+			if call, ok := l.(*ssa.Call); ok && sortingHelper[call.Common().StaticCallee()] {
+				return true
+			}
+			return false
+		}
+		listOf := func(v ssa.Value) ssa.Value {
+			u, ok := v.(*ssa.UnOp)
+			if !ok || u.Op != token.MUL {
+				return nil
+			}
+			ia, ok := u.X.(*ssa.IndexAddr)
+			if !ok {
+				return nil
+			}
+			return ia.X
+		}
+		unsortedPair := ""
 		for _, b := range qblocks {
 			for _, in := range b.Instrs {
 				switch x := in.(type) {
@@ -955,6 +1083,14 @@ func checkC14Relation(w *World, c *Check, eq *ssa.Function, clos []*ssa.Function
 						ix, iy := elementIndex(x.X), elementIndex(x.Y)
 						if ix != nil && iy != nil && ix == iy && len(loops[b]) > 0 {
 							pairwise = true
+							// position by position makes sense only between two SORTED lists
+							if sorted >= 2 {
+								for _, side := range []ssa.Value{x.X, x.Y} {
+									if l := listOf(side); l != nil && !isSorted(l) {
+										unsortedPair = w.InstrPos(x) + ": " + shortVal(l)
+									}
+								}
+							}
 						}
 					}
 				case *ssa.MapUpdate:
@@ -964,7 +1100,9 @@ func checkC14Relation(w *World, c *Check, eq *ssa.Function, clos []*ssa.Function
 				}
 			}
 		}
-		if nested == "" && !(sorted >= 2 && pairwise) && !counting {
+		if nested == "" && unsortedPair != "" && !counting {
+			c.bad("C14.query", "irisEqual:values-of-a-key:complete", w.FuncPos(ie), "the values of a repeated query key are compared position by position, but one of the two lists is not a sorted one ("+unsortedPair+"): the answer depends on the order in which the values are written, and differs between the two argument orders")
+		} else if nested == "" && !(sorted >= 2 && pairwise) && !counting {
 			c.bad("C14.query", "irisEqual:values-of-a-key:complete", w.FuncPos(ie), "the values of a repeated query key are not compared completely: neither two sorted lists compared position by position over their whole length nor a counting comparison was found (comparing only some of the values makes ids with different queries equal)")
 		} else if nested == "" {
 			c.ok("C14.query", "irisEqual:values-of-a-key:complete", w.FuncPos(ie), "sorted copies compared position by position (or counted)")
